@@ -14,7 +14,7 @@ RULE = (
 )
 BOUNDS = {
     "quick": "5,220 single-record files x 8 dialects; 3,249 two-record files x 8 dialects; 85 header rows x 4 data lengths",
-    "thorough": "as quick + all three-record files over a 4-cell sub-alphabet (21^3 x 8 dialects) + CsvPaths serial and breadth-first delivery for the two-record family",
+    "thorough": "as quick + all 83,521 four-cell single records x 8 dialects + all three-record files over a 4-cell sub-alphabet (21^3 x 8 dialects) and over a 5-cell one incl. blank records and embedded newlines (31^3 x 8) + CsvPaths serial and breadth-first delivery for the two-record family",
 }
 CHUNK = 200
 BUDGET = {"quick": 600, "thorough": 3400}
@@ -71,6 +71,15 @@ def cases(tier, seed):
             for d, q in ((";", '"'), (",", "'"), ("|", "'")):
                 yield {"kind": "group", "rows": [a, ["z"]], "d": d, "q": q}
     if tier == "thorough":
+        for row in itertools.product(H, repeat=4):
+            for d, q in DIALECTS:
+                yield {"kind": "cells", "rows": [list(row)], "d": d, "q": q}
+        r5 = _rows(["a", "", 'a"b', "a'b", "a\nb"], 2)
+        for a in r5:
+            for b in r5:
+                for c in r5:
+                    for d, q in DIALECTS:
+                        yield {"kind": "records", "rows": [a, b, c], "d": d, "q": q}
         r3 = _rows(SUB4, 2)
         for a in r3:
             for b in r3:
